@@ -3,8 +3,10 @@ package keys
 import (
 	"crypto/ed25519"
 	"crypto/sha256"
+	"encoding/base64"
 	"encoding/binary"
 	"fmt"
+	"strings"
 
 	"filippo.io/age"
 	"filippo.io/age/agessh"
@@ -91,7 +93,45 @@ func edWithSeedCounter(label string, i uint32, name string) *Ed {
 	return &Ed{Name: name, Seed: seed[:], Pub: pub, SSHPub: sp, PubLine: line[:len(line)-1], Ref: refage.EdKey{Seed: seed[:], Pub: pub}}
 }
 
+// nonCanonicalRSALine re-encodes an ssh-rsa public key line so that the
+// exponent is written with a leading zero byte (00 01 00 01): a wire encoding
+// that golang.org/x/crypto/ssh accepts and re-marshals canonically.
+func nonCanonicalRSALine(line string) string {
+	f := strings.Fields(line)
+	blob, err := base64.StdEncoding.DecodeString(f[1])
+	if err != nil {
+		panic(err)
+	}
+	rd := func(b []byte) ([]byte, []byte) {
+		n := binary.BigEndian.Uint32(b)
+		return b[4 : 4+n], b[4+n:]
+	}
+	wr := func(x []byte) []byte {
+		var l [4]byte
+		binary.BigEndian.PutUint32(l[:], uint32(len(x)))
+		return append(l[:], x...)
+	}
+	typ, rest := rd(blob)
+	e, rest := rd(rest)
+	n, _ := rd(rest)
+	out := append(wr(typ), wr(append([]byte{0}, e...))...)
+	out = append(out, wr(n)...)
+	return "ssh-rsa " + base64.StdEncoding.EncodeToString(out) + " non-canonical-encoding"
+}
+
 func addSpecialParties(world map[string]*Party) {
+	// RN1: the key R1 as a recipient whose KEY LINE is a valid but non-canonical
+	// wire encoding (the identity is R1's)
+	r1 := LoadRSA("rsa1")
+	rn := nonCanonicalRSALine(r1.PubLine)
+	world["RN1"] = &Party{Name: "RN1", Kind: 'R', Ref: r1.Ref, Identity: safeIdentity("RN1", r1.Identity),
+		Recipient: safeRecipient("RN1", func() age.Recipient {
+			r, err := agessh.ParseRecipient(rn)
+			if err != nil {
+				panic(err)
+			}
+			return r
+		})}
 	// EC1, EC2: two DIFFERENT Ed25519 SSH keys whose 32-bit recipient tags are
 	// equal (found once by a birthday search over this family: numbers 1420 and
 	// 34786, tag IyHGGA; checked here)
